@@ -17,9 +17,14 @@
 
    Loops: the recursion into the elements follows references, hence explicit fuel (out-of-fuel result
    TOutOfFuel; the number of objects suffices, Proofs/InferHistProofs.v); a dangling reference is the explicit
-   result TFault.  Types are values of `ty` here: that a type object, once returned, is never written to again
-   (the backing arrays of Enum / Pattern / Variant members are copied by utils.Unique, UniqueRegexps, UniqueTypes
-   before they are stored) is the slice-level model Model/InferSlices.v. *)
+   result TFault.
+   NOT modelled: types are values of `ty` here, i.e. a type object, once returned, is taken never to be written to
+   again.  In the code that rests on utils.Unique, UniqueRegexps and UniqueTypes copying the backing array that
+   commonType appends to (commonality.go, the Enum, Pattern and Variant merges) before it is stored in the new
+   type.  That is an ASSUMPTION of this model, not a theorem (there is no slice-level model): it is tied to the code
+   on every run by the correspondence (the types the returned objects hold at the END of each history are compared
+   with `run`) and by the direct check (the stated relation of every earlier operation is evaluated again after
+   every later one).  Mutable hashes (types.NewMutableHash, Put) are outside this model: direct check only. *)
 From Coq Require Import ZArith NArith Bool List.
 From PcoreV Require Import Model.Base Model.Ty Model.Lattice Model.Infer.
 Import ListNotations.
